@@ -179,18 +179,24 @@ impl WebAnnoConfig {
     pub fn serialize_context(&self) -> String {
         let mut out = String::new();
         if !self.extra_context.is_empty() {
+            //the extra contexts are URLs, they are JSON strings in the output
+            let extra_context: Vec<String> = self
+                .extra_context
+                .iter()
+                .map(|url| format!("\"{}\"", json_escape(url)))
+                .collect();
             if !self.context_namespaces.is_empty() {
                 out += &format!(
                     "[ \"{}\", {}, {{ {} }} ]",
                     CONTEXT_ANNO,
-                    self.extra_context.join(", "),
+                    extra_context.join(", "),
                     self.serialize_context_namespaces(),
                 );
             } else {
                 out += &format!(
                     "[ \"{}\", {} ]",
                     CONTEXT_ANNO,
-                    self.extra_context.join(", ")
+                    extra_context.join(", ")
                 );
             }
         } else if !self.context_namespaces.is_empty() {
